@@ -284,6 +284,10 @@ class SMCSampler(MCMCSampler):
             else:
                 min_step = 1 / max_n_steps
                 self.adaptive_min_step = True
+                if resumed and self._restored_min_step is not None:
+                    # The adaptive minimum step is rescaled at every
+                    # iteration, so continue from the checkpointed value
+                    min_step = self._restored_min_step
         else:
             self.adaptive_min_step = False
 
@@ -311,7 +315,9 @@ class SMCSampler(MCMCSampler):
             )
             if not should_checkpoint:
                 return
-            state = self.build_checkpoint_state(samples, iterations, beta)
+            state = self.build_checkpoint_state(
+                samples, iterations, beta, min_step=min_step
+            )
             checkpoint_callback(state)
 
         if run_smc_loop:
@@ -409,13 +415,17 @@ class SMCSampler(MCMCSampler):
         return log_prob
 
     def build_checkpoint_state(
-        self, samples: SMCSamples, iteration: int, beta: float
+        self,
+        samples: SMCSamples,
+        iteration: int,
+        beta: float,
+        min_step: float | None = None,
     ) -> dict:
         """Prepare a serializable checkpoint payload for the sampler state."""
         return super().build_checkpoint_state(
             samples,
             iteration,
-            meta={"beta": beta},
+            meta={"beta": beta, "min_step": min_step},
         )
 
     def _checkpoint_extra_state(self) -> dict:
@@ -441,6 +451,9 @@ class SMCSampler(MCMCSampler):
             beta = meta.get("beta", None)
         if beta is None:
             beta = state.get("beta", 0.0)
+        self._restored_min_step = (
+            meta.get("min_step", None) if isinstance(meta, dict) else None
+        )
         iteration = state.get("iteration", 0)
         self.history = state.get("history", SMCHistory())
         rng_state = state.get("rng_state")
